@@ -36,10 +36,10 @@ using C   = std::complex<double>;
 using idx = std::ptrdiff_t;
 
 // ------------------------------------------------------------------------------------------------ configuration
-enum Lay { L_CONTIG, L_ROT, L_UNROT, L_TRANSP, L_SUB, L_STRIDED, L_SUBROT, NLAY };
-static char const* const lay_name[]  = {"contiguous", "rotated", "unrotated", "transposed", "padded-sub-block", "strided-by-2-block", "sub-block-of-rotated"};
-static char const* const lay_short[] = {"contig", "rot", "unrot", "transp", "sub", "strided", "subrot"};
-static char const* const lay_class[] = {"contiguous", "permuted", "permuted", "permuted", "padded", "padded", "permuted-padded"};
+enum Lay { L_CONTIG, L_ROT, L_UNROT, L_TRANSP, L_SUB, L_STRIDED, L_SUBROT, L_STEP1, L_STEPLAST, NLAY };
+static char const* const lay_name[]  = {"contiguous", "rotated", "unrotated", "transposed", "padded-sub-block", "strided-by-2-block", "sub-block-of-rotated", "every-other-in-dimension-1-of-odd-parent", "every-other-in-last-dimension-of-odd-parent"};
+static char const* const lay_short[] = {"contig", "rot", "unrot", "transp", "sub", "strided", "subrot", "step1", "steplast"};
+static char const* const lay_class[] = {"contiguous", "permuted", "permuted", "permuted", "padded", "padded", "permuted-padded", "padded", "padded"};
 
 enum Mode { M_OOP, M_INPLACE };
 
@@ -209,6 +209,9 @@ template<int D, class V, class F> void carve(V&& v, idx const* lo, idx const* hi
 	else { auto&& s0 = v.sliced(lo[d], hi[d]); auto&& s = s0.strided(step); carve<D>(s.rotated(), lo, hi, step, d + 1, f); }
 }
 
+template<int K, class V, class F> void rot_k(V&& v, F&& f) { if constexpr(K == 0) { f(v); } else { rot_k<K - 1>(v.rotated(), f); } }
+template<int K, class V, class F> void unrot_k(V&& v, F&& f) { if constexpr(K == 0) { f(v); } else { unrot_k<K - 1>(v.unrotated(), f); } }
+
 static idx prod(std::vector<idx> const& e) { idx p = 1; for(auto x : e) { p *= x; } return p; }
 
 // builds the storage for a view of logical extents sh.ext in layout `lay` inside `st` (sentinel everywhere), binds st, calls f(view&)
@@ -240,6 +243,19 @@ template<int D, class F> void with_layout(int lay, Shape const& sh, Store& st, F
 			for(auto& x : big) { x += 2; } for(auto& x : hi) { x += 1; }
 			auto s = rot_storage(big); st.init(prod(s) + 2 * G); multi::array_ref<C, D> a(mkext<D>(s), st.mem.data() + G);
 			carve<D>(a.rotated(), one.data(), hi.data(), 1, 0, run); return;
+		}
+		// every other element in ONE dimension d of a parent whose extent there is odd (2n+1): the stride of dimension d-1 is (2n+1)/2 times the stride of
+		// dimension d, i.e. NOT a multiple of it (strides of the other layouts always divide each other); all other dimensions are complete
+		case L_STEP1: case L_STEPLAST: {
+			if constexpr(D >= 2) {
+				auto go = [&](auto dc) {
+					constexpr int d = decltype(dc)::value; auto u = static_cast<std::size_t>(d);
+					big[u] = 2 * e[u] + 1; st.init(prod(big) + 2 * G); multi::array_ref<C, D> a(mkext<D>(big), st.mem.data() + G);
+					rot_k<d>(a, [&](auto&& r) { auto&& s0 = r.sliced(0, 2 * e[u]); auto&& s = s0.strided(2); unrot_k<d>(s, run); });
+				};
+				if(lay == L_STEP1) { go(std::integral_constant<int, 1>{}); } else { go(std::integral_constant<int, D - 1>{}); }
+				return;
+			} else { harness_bug("stepped layout requested for D=1"); }
 		}
 		default: harness_bug("unknown layout");
 	}
@@ -478,7 +494,7 @@ static void run_group(std::vector<Cfg> const& cfgs, Group const& g, bool nofork)
 }
 
 // ------------------------------------------------------------------------------------------------ the grid
-static std::vector<int> layouts_for(int D) { if(D == 1) { return {L_CONTIG, L_SUB, L_STRIDED}; } return {L_CONTIG, L_ROT, L_UNROT, L_TRANSP, L_SUB, L_STRIDED, L_SUBROT}; }
+static std::vector<int> layouts_for(int D) { if(D == 1) { return {L_CONTIG, L_SUB, L_STRIDED}; } if(D == 2) { return {L_CONTIG, L_ROT, L_UNROT, L_TRANSP, L_SUB, L_STRIDED, L_SUBROT, L_STEP1}; } return {L_CONTIG, L_ROT, L_UNROT, L_TRANSP, L_SUB, L_STRIDED, L_SUBROT, L_STEP1, L_STEPLAST}; }
 
 static std::vector<Cfg> group_configs(int D, std::vector<idx> const& ext, unsigned mask, int sign) {
 	std::vector<Cfg> v; auto ls = layouts_for(D);
